@@ -20,7 +20,8 @@ EXPLANATION = (
     'guard, a digit-set guard that dominates the conversion, boolean rejection before numeric coercion, padding only for '
     'non-negative results and #NUM! when places is too small; (C19.4) origin/destination roles in conversion(): parse base and '
     'sign mask from the origin, wrap and formatter from the destination, upper-cased digits; (C19.5) the module is imported by the '
-    'package (shares C08.6).')
+    'package (shares C08.6).'
+    ' (C19.3) also: digit strings "false"/"FALSE"/"true" are invalid digits - decided with Text.__bool__ interpreted as written.')
 NOT_DECIDED = 'exact digits for each integer (that is a run, even for the 1024-value binary window)'
 TRUSTED = ['bin/oct/hex formatter prefixes of two characters']
 
